@@ -8,7 +8,7 @@ EVIDENCE = dict(
     rule="cases = every document of four families of WordDoc.tla, enumerated exhaustively by TLC together with the items "
          "the reader contract emits: A interleavings of <= 3 (thorough 4) blocks over 11 block shapes, B one paragraph with every "
          "arrangement of <= 2 children x <= 2 atoms over the wrapper/atom alphabets, C every table <= 2x2 (thorough 3x3) with "
-         "merges and two-paragraph cells, D every heading declaration x header/footer parts and nested list runs; each for DOCX and "
+         "merges, a two-paragraph cell and a cell paragraph with mixed inline content, D every heading declaration x header/footer parts and nested list runs; each for DOCX and "
          "ODT. Each case is rendered by the independent writers and read through docx.Open/odt.Open and tabula.Open "
          "(Text, Markdown, Document). Non-trivial = body with a table or a paragraph mixing >= 3 inline kinds; distinct by "
          "format + body. Traces = documents (a sample of the cases + larger random ones) whose observed model WordDocTrace.tla accepted.",
